@@ -31,6 +31,10 @@ def _row_classified(inp, row):
     if bad is None:
         return None
     # known mechanism: the reagent-template overwrite of an already solved row by Balancer.__post_process
+    # - accepted only for the permanganate / sulfuric acid template (the one that is balanced only with stoichiometric coefficients)
+    #   and only when the same reaction is solved and balanced with __post_process disabled; any other template is reported
+    if "[Mn]" not in str(row.get("reaction")):
+        return bad
     rows = _without_post_processing(inp)
     if len(rows) == 1 and P.row_c01(rows[0]) is None and rows[0].get("solved"):
         return "POSTPROCESS " + bad
